@@ -33,10 +33,7 @@
 
 package scalar
 
-import (
-	"encoding/binary"
-	"fmt"
-)
+import "encoding/binary"
 
 func m(x, y uint32) uint64 {
 	// Note: The paranoid thing to do would be to assume that the Go
@@ -97,7 +94,7 @@ func (s *unpackedScalar) SetBytes(in []byte) *unpackedScalar {
 // SetBytesWide reduces a 64 byte / 512 bit scalar mod l.
 func (s *unpackedScalar) SetBytesWide(in []byte) (*unpackedScalar, error) {
 	if len(in) != ScalarWideSize {
-		return nil, fmt.Errorf("curve/scalar/u32: unexpected wide in size")
+		return nil, errUnexpectedInputSize
 	}
 
 	var words [16]uint32
